@@ -102,6 +102,7 @@ int main(int argc, char** argv)
     MemoryLeakDetector* det = new MemoryLeakDetector(rf);
     std::string cur = "disabled";
     std::map<int, std::string> kindOf;
+    std::string seen;      // what the detector's text buffer holds, as far as this harness has seen it (cleared by startChecking only)
     std::string line;
     while (vh_readline(in, line)) {
         if (line.empty()) continue;
@@ -112,12 +113,18 @@ int main(int argc, char** argv)
         size_t sz = (size_t) atol(f[3].c_str());
         std::string k = f[4]; int ln = atoi(f[5].c_str()); std::string q = f[6];
         if (op == "reset") {
-            delete det; delete rf; rf = new RecFailure; det = new MemoryLeakDetector(rf); cur = "disabled"; kindOf.clear();
+            delete det; delete rf; rf = new RecFailure; det = new MemoryLeakDetector(rf); cur = "disabled"; kindOf.clear(); seen.clear();
             fprintf(out, "{\"op\":\"reset\"}\n");
             continue;
         }
         rf->count = 0; rf->last.clear();
         std::string rep;
+        if (seen.size() > 2500 && op != "report") {
+            // keep room in the detector's fixed text buffer for the message of this call (clearing it is all startChecking() does
+            // besides setting the period, which is put back)
+            det->startChecking(); seen.clear();
+            if (cur == "enabled") det->enable(); else if (cur == "disabled") det->disable();
+        }
         TestMemoryAllocator* al = (k == "malloc") ? (TestMemoryAllocator*) &mallocAlloc : (TestMemoryAllocator*) &newAlloc;
         if (op == "alloc") {
             g_next = addr_of(a);
@@ -149,7 +156,8 @@ int main(int argc, char** argv)
             g_next = NULL;
         } else if (op == "enable") { det->enable(); cur = "enabled"; }
         else if (op == "disable") { det->disable(); cur = "disabled"; }
-        else if (op == "startchecking") { det->startChecking(); cur = "checking"; }
+        else if (op == "startchecking") { det->startChecking(); cur = "checking"; seen.clear(); }
+        else if (op == "inval") det->invalidateMemory(addr_of(a));      // what operator delete / free do before releasing: poison, change nothing
         else if (op == "stopchecking") { det->stopChecking(); cur = "enabled"; }
         else if (op == "incstage") det->increaseAllocationStage();
         else if (op == "decstage") det->decreaseAllocationStage();
@@ -159,12 +167,21 @@ int main(int argc, char** argv)
         else if (op == "report") {
             // the report text accumulates in the detector's fixed buffer; only startChecking() clears it,
             // so clear it that way and put the period back (both calls only set the current period)
-            det->startChecking();
-            if (cur == "enabled") det->enable(); else if (cur == "disabled") det->disable();
+            // k = "keep": do not clear - as when the plugin's final report follows the last test's leak report with no
+            // startChecking() in between; the report of THIS call is what it appended to the text already there
+            bool keep = (k == "keep") && seen.size() < 1500;
+            if (!keep) {
+                det->startChecking(); seen.clear();
+                if (cur == "enabled") det->enable(); else if (cur == "disabled") det->disable();
+            }
             rep = det->report(period_of(q));
+            std::string whole = rep;
+            if (keep && !seen.empty() && rep.compare(0, seen.size(), seen) == 0) rep = rep.substr(seen.size());
+            seen = whole;
         } else { fprintf(out, "{\"op\":\"harness-error\",\"what\":\"unknown op\"}\n"); break; }
 
         std::string res = "ok";
+        if (rf->count > 0) seen = rf->last;
         if (rf->count > 0) {
             // the misuse text is appended to whatever the detector's buffer already holds: classify its tail
             size_t p1 = rf->last.rfind("Deallocating non-allocated memory\n");
